@@ -27,16 +27,27 @@ class _UFMat:
         self.name = name
         self.env = env
         self.thermal_conductivity = None
+        self.calls = []          # (temperature, conductivity, positivity constraint) of every evaluation, in order
+        self.last_cond = None
 
     def k(self, T):
+        out = self._k(T)
+        if isinstance(T, np.ndarray):
+            self.calls.append((np.ravel(T)[0], np.ravel(out)[0], self.last_cond))
+        else:
+            self.calls.append((T, out, self.last_cond))
+        return out
+
+    def _k(self, T):
         if self.env.mode == 'sym':
             if isinstance(T, np.ndarray):
                 out = np.empty(T.shape, dtype=object)
                 for i, x in np.ndenumerate(T):
-                    out[i] = self.k(x)
+                    out[i] = self._k(x)
                 return out
             v = core.uf('K_' + self.name)(core.toz(T))
-            core.CTX.side.append(v > 0)
+            self.last_cond = v > 0
+            core.CTX.side.append(self.last_cond)
             return Sym(v)
         # replay: a concrete positive, temperature dependent conductivity
         base = {'clad': 22.0, 'gap': 60.0}.get(self.name, 15.0)
@@ -54,11 +65,22 @@ def _model(env, gap, r_frac):
     m = pm.PinModel(0.006, 0.0005, clad, pin_params=params, gap_mat=gm)
     cm_ = _UFMat('clad', env)
     m.clad['k'] = cm_.k
+    m._h_clad = cm_
+    m._h_gap = None
     if gap > 0:
         g = _UFMat('gap', env)
         m.gap['k'] = g.k
+        m._h_gap = g
     m.fuel['mat'] = [_UFMat('fuel%d' % i, env) for i in range(len(r_frac))]
     return m
+
+
+def _k_used(calls):
+    """Conductivity of the last iterate: the first evaluation alone if the iteration was not entered, else the
+    mean of the first (outer temperature) and the last (previous inner iterate) evaluation."""
+    if len(calls) == 1:
+        return calls[0][1]
+    return 0.5 * (calls[-1][1] + calls[0][1])
 
 
 def body_pin(env):
@@ -72,12 +94,14 @@ def body_pin(env):
         PI, ov = np.pi, {}
     with env.patch(MODS, overrides=ov):
         if env.mode == 'sym':
-            core.CTX.assumptions += [PI.e > z3.RealVal('3.14159'), PI.e < z3.RealVal('3.1416')]
+            pi_lo = PI.e > z3.RealVal('3.14159')
+            core.CTX.assumptions += [pi_lo, PI.e < z3.RealVal('3.1416')]
         m = _model(env, gap, r_frac)
         q = 0.0 if zero else env.nonneg('q_lin', hi=2e5)
         Tc = env.real('T_cool', lo=300, hi=1500)
         h = env.pos('htc', hi=1e7)
-        dz = env.pos('dz', hi=1)
+        closed = env.params.get('closed_forms', False)
+        dz = 0.0125 if closed else env.pos('dz', hi=1)
         one = (lambda x: np.array([x], dtype=object)) if env.mode == 'sym' else (lambda x: np.array([float(x)]))
         try:
             t = m.calculate_temperatures(one(q), one(Tc), one(h), dz, atol=1e-3)
@@ -101,6 +125,49 @@ def body_pin(env):
                (t[2] - t[1]) * l_id, (t[3] - t[1]) * l_mw, tol=1e-7)
         if gap == 0:
             env.eq('no gap: fuel surface = clad inner wall', t[4], t[3])
+        if not closed:
+            return
+        # ---- closed forms with the conductivity the last iterate was computed with (every evaluation of the
+        # conductivity functions is logged; radii are read from the model, logarithms and areas recomputed here)
+        import math
+        rc = [float(x) for x in m.clad['r']]
+        kc = _k_used(m._h_clad.calls)
+        env.eq("clad: (ID - OD) * 2 pi k = q' ln(r_o / r_i)", (t[3] - t[1]) * (2 * PI) * kc, q * math.log(rc[2] / rc[0]), tol=1e-7, scale=1.0,
+               key='clad_drop')
+        env.eq("clad: (MW - OD) * 2 pi k = q' ln(r_o / r_m)", (t[2] - t[1]) * (2 * PI) * kc, q * math.log(rc[2] / rc[1]), tol=1e-7, scale=1.0,
+               key='clad_drop')
+        fr = np.asarray(m.fuel['r'], dtype=float)
+        Rf, a_hole = float(fr[-1, 1]), float(fr[0, 0])
+        env.holds('fuel zones are nested from the hole to the pellet surface',
+                  all(abs(fr[i, 1] - fr[i + 1, 0]) < 1e-15 for i in range(len(fr) - 1)) and all(fr[:, 1] > fr[:, 0]))
+        env.holds('pellet surface = clad inner radius - gap', abs(Rf - (rc[0] - gap)) < 1e-15)
+        if gap > 0:
+            gc = m._h_gap.calls
+            kg = _k_used(gc)
+            SB = 5.670374419e-8
+            env.holds('Stefan-Boltzmann constant', abs(pm._SBCONST - SB) < 1e-4 * SB)
+            rad = 0.0
+            if len(gc) > 1:
+                Tp = gc[-1][0]          # previous iterate: the radiation term is evaluated there
+                rad = m.fuel['e'] * pm._SBCONST * (Tp * Tp * Tp * Tp - t[3] * t[3] * t[3] * t[3])
+            lhs = ((t[4] - t[3]) * kg / gap + rad) * (2 * PI * Rf)
+            nm = "gap: conduction + radiation across the gap = q' / (2 pi r_fuel)"
+            if env.mode == 'sym':
+                # degree-4 identity in the clad inner temperature and the previous iterate: proved with those two
+                # temperatures and the conductivity evaluations as atoms (abstraction: sound for proofs)
+                ks = [c[1] for c in (gc[0], gc[-1])]
+                env.derive(nm, lhs == q, hyps=[pi_lo] + [c[2] for c in (gc[0], gc[-1])], atoms=[t[3]] + ([gc[-1][0]] if len(gc) > 1 else []) + ks,
+                           key='gap_drop')
+            else:
+                env.eq(nm, lhs, q, tol=1e-6, scale=1.0, key='gap_drop')
+        # fuel: sum of the shell drops, each = q''' (r_o^2 - r_i^2) / (4 k), q''' = q' / (pi (R^2 - a^2))
+        A_f = PI * (Rf ** 2) - PI * (a_hole ** 2)      # same float squares as the model: the solver claim is exact
+        tot = 0.0
+        for i in reversed(range(len(fr))):
+            ki = _k_used(m.fuel['mat'][i].calls)
+            tot = tot + (q / A_f) * (0.25 * (float(fr[i, 1]) ** 2 - float(fr[i, 0]) ** 2)) / ki
+        env.eq("fuel: centre - surface = sum over shells of q''' (r_o^2 - r_i^2) / (4 k_shell)", t[5] - t[4], tot, tol=1e-7, scale=1.0,
+               key='fuel_drop')
 
 
 def body_coolant_avg(env):
@@ -159,6 +226,9 @@ def instances(tier):
                 inst.append(dict(label='pin[gap=%g,zones=%s%s]' % (gap, '/'.join(map(str, rf)), ',zero power' if zero else ''),
                                  body=body_pin, params={'gap': gap, 'r_frac': rf, 'zero_power': zero},
                                  max_paths=600, max_depth=(4 if gap > 0 else 5) if tier == 'quick' else 8, timeout_ms=20000))
+            inst.append(dict(label='pin-closed-forms[gap=%g,zones=%s]' % (gap, '/'.join(map(str, rf))),
+                             body=body_pin, params={'gap': gap, 'r_frac': rf, 'zero_power': False, 'closed_forms': True},
+                             max_paths=600, max_depth=(4 if gap > 0 else 5) if tier == 'quick' else 7, timeout_ms=30000))
     for n in (2, 3):
         inst.append(dict(label='pin-coolant-average[rings=%d]' % n, body=body_coolant_avg, params={'n_ring': n}))
     return inst
@@ -172,11 +242,15 @@ def main():
         explanation=('PinModel.calculate_temperatures runs with symbolic linear power, coolant temperature, film coefficient and step; '
                      'clad, gap and fuel-zone conductivities are uninterpreted positive functions of temperature; every outcome of the '
                      'convergence tests of the conductivity iterations (within the fork budget) is a path.  Ordering, zero-power '
-                     'identity, film closed form, one-conductivity clad profile and the pin-adjacent coolant average are SMT queries.'),
+                     'identity, film / clad / gap (conduction + radiation) / fuel-shell closed forms with the logged conductivity evaluations, '
+                     'and the pin-adjacent coolant average are SMT queries.'),
         bounds={'fuel zones': '1..2 (quick) / 1..3, solid and annular', 'gap': '0 and 20 micron with radiation',
-                'iterations': 'fork depth 5 (quick) / 8 over all conductivity loops', 'pins': 1},
-        outside=['the exact mean-conductivity relation of gap and fuel shells "at the reported temperatures" (the code uses the previous '
-                 'iterate, within atol); convergence rate; iteration-limit error path', 'metal-fuel conductivity polynomial (replaced by an arbitrary positive function)',
+                'iterations': 'fork depth 5 (quick) / 8 over all conductivity loops', 'pins': 1,
+                'dz': 'symbolic for ordering / zero power / film; 0.0125 m in the closed-form instances (it enters only as q = q\' dz and cancels)'},
+        outside=['"conductivity at the reported temperatures" is taken as: the mean of the evaluations at the outer temperature and at the '
+                 'previous inner iterate, which differs from the reported inner temperature by at most atol (the loop exit condition); '
+                 'convergence rate; iteration-limit error path', 'annular pellets: the shell relation of the code (solid-cylinder form with the '
+                 'annulus power density) is what is checked, not the exact hollow-cylinder solution', 'metal-fuel conductivity polynomial (replaced by an arbitrary positive function)',
                  'monotonicity in power for temperature-dependent conductivity'],
         level_assumptions=['conductivities positive', 'q_lin >= 0, htc > 0'])
 
